@@ -90,9 +90,17 @@ func c18Writer(r *eng.Run, mode int) {
 	names := []string{"Writer.Reset", "Writer.ResetOp", "PutWriter/GetWriter"}
 	r.SetEntry(names[mode])
 	cfg1 := drawWCfg(r)
+	poolable := false
 	if mode == 2 {
 		cfg1.Ctor = 4
 		cfg1.Size = []int{7, 100, 128, 129, 256, 1000, 4096}[r.T.Int(sim.LSize, 7)]
+		if r.T.Bool(sim.LCfg) {
+			// PutWriter only keeps writers whose Size() is a pool class:
+			// NewWriterSize(n) with n a power of two gives exactly that.
+			cfg1.Ctor = 1
+			cfg1.Size = []int{128, 256, 512, 4096}[r.T.Int(sim.LSize, 4)]
+			poolable = true
+		}
 	}
 	h1 := drawHistory(r, cfg1, 8)
 	// An unflushed partial message is left behind half of the time.
@@ -165,6 +173,7 @@ func c18Writer(r *eng.Run, mode int) {
 		if reused == w {
 			r.Probe("pool_returned_same_writer")
 		}
+		_ = poolable
 		applyOptions(reused, cfg2)
 	}
 	cfg2.Size = rawLen(r, reused)
